@@ -273,6 +273,29 @@ def run_prefix_shard(args):
     return n, fails
 
 
+def run_fields_shard(args):
+    exe, scratch, maxoff, files = args
+    n, fails = 0, []
+    for f in files:
+        start = 0
+        while start <= maxoff:
+            rc, out, err = vlib.run_exe(exe, ["0", str(start), str(maxoff), scratch, "fields", f], timeout=1800,
+                                        env=fill_env(FILL_MAIN))
+            text = out.decode("latin-1")
+            flds = re.findall(r"^field (\d+) (\d) (\d) (\d+)$", text, re.M)
+            n += len(flds)
+            if rc == 0 or not flds:
+                if rc != 0:
+                    fails.append({"file": f, "field": (start, 0, 0, 0), "stderr": err[-3000:], "rc": rc})
+                break
+            last = tuple(int(x) for x in flds[-1])
+            fails.append({"file": f, "field": last, "stderr": err[-3000:], "rc": rc})
+            if len(fails) > 10:
+                return n, fails
+            start = last[0] + 1        # continue behind the failing offset
+    return n, fails
+
+
 def run_window_shard(args):
     exe, seed, ncases, frames, mods = args
     rc, out, err = vlib.run_exe(exe, [str(seed), str(ncases), str(frames)] + mods, timeout=1800)
@@ -457,6 +480,21 @@ def run(ck):
                           "file": f["file"], "prefix_length": f["len"], "stderr": f["stderr"][-2500:]},
                          "the first %d bytes of %s as an exactly sized memory image: %s" % (f["len"], os.path.basename(f["file"]), sig))
     ck.note("prefix_images_checked", nprefix)
+    # ---- systematic field inflation of the tiny archives (every offset x width x byte order x boundary value) ----
+    tiny = sorted(f for f in set(files) if os.path.basename(f).startswith("arc") and "/syn-" in f)
+    maxoff = 72 if quick else 400
+    nfields = 0
+    for (n, fails) in vlib.pmap(run_fields_shard, [(fexe, scratch, maxoff, [f]) for f in tiny]):
+        nfields += n
+        for f in fails:
+            sig = "timeout" if f["rc"] in (-999, 142, -14) else vlib.sanitizer_signature(f["stderr"])
+            ck.violation("asan:fields:%s" % sig,
+                         {"harness": "c01_fuzz fields", "file": f["file"], "field": f["field"], "stderr": f["stderr"][-2500:],
+                          "args": ["0", str(f["field"][0]), str(f["field"][0]), scratch, "fields", f["file"]]},
+                         "%s with the %d-bit %s-endian field at offset %d set to boundary value #%d: %s" % (
+                             os.path.basename(f["file"]), 8 * f["field"][1], "big" if f["field"][2] else "little", f["field"][0],
+                             f["field"][3], sig))
+    ck.note("field_inflations_checked", nfields)
     ck.bump("evaluations_extra", nprefix)
     ck.note("mutation_and_entry_distribution", dict(sorted(kinds.items())[:60]))
     ck.note("fuzz_cases_completed", ncases)
